@@ -69,6 +69,19 @@ def _clamps(repo, col, R="R-C16-forms"):
                           f"`{unparse(s_.node)[:60]}` raises every value below {thr.short(20)} to {val.short(20)}: the clamp is not "
                           f"continuous, so (for the segment lengths) a zero-length traced segment takes up {val.short(12)} um of its "
                           f"section and shifts the interpolated radius profile", node=s_.node)
+        # maximum(x, t) / clip(x, t) raise to the threshold by construction
+        seen = set()
+        for t_ in list(ex.returns) + [s_.value for s_ in ex.stores if s_.value is not None]:
+            if t_ is None:
+                continue
+            for x in t_.walk():
+                if x.op in ("mcall", "call") and x.name in ("maximum", "clip") and x.key() not in seen:
+                    lo = (x.kw.get("a_min") or x.kw.get("min") or (x.args[2] if (x.op == "mcall" and len(x.args) > 2) else None)) \
+                        if x.name == "clip" else True
+                    if lo is not None and not (lo is not True and lo.op == "const" and lo.name is None):
+                        seen.add(x.key())
+                        n += 1
+                        col.ok(R, fi, f"{name}: values below a threshold are raised to that threshold", f"`{x.short(50)}`", node=x.node or fi.node)
     if n < 2:
         raise AnalysisError(f"only {n} lower clamps found in the SWC helpers")
 
@@ -273,23 +286,50 @@ def _forms(repo, col):
     fi = repo.func(CU, "build_radiuses_from_xyzr")
     ev = kin.new_eval(repo)
     ls = next((n for n in ast.walk(fi.node) if isinstance(n, ast.Call) and unparse(n.func).endswith("linspace")), None)
-    if ls is None:
-        raise AnalysisError("build_radiuses_from_xyzr: linspace vanished")
     env = {"ncomp": kin.A("n")}
     ctx = {"mod": repo.mods[fi.file], "cls": None, "defining_cls": None}
-    try:
-        for st in fi.node.body:
-            if isinstance(st, ast.Assign) and st.lineno < ls.lineno and isinstance(st.targets[0], ast.Name):
-                try:
-                    env[st.targets[0].id] = ev.ev(st.value, env, ctx)
-                except Und:
-                    pass
-        a, b, c = (rat_of(ev.ev(x, env, ctx)) for x in ls.args[:3])
-        ok = a.eq(parse_ref(ev, "1/(2*n)")) and b.eq(parse_ref(ev, "1 - 1/(2*n)")) and c.eq(Rat.atom("n"))
-        col.check(ok, R, fi, "compartment centres are (i + 1/2)/ncomp, i = 0..ncomp-1", "linspace(1/(2n), 1 - 1/(2n), n)",
-                  f"centres are linspace({a}, {b}, {c})", node=ls)
-    except Und as e:
-        col.unk(R, fi, "compartment centres", str(e), node=ls)
+    if ls is None:
+        # the same centres from a counter: (arange(ncomp) + 1/2) / ncomp
+        ar = next((st for st in fi.node.body if isinstance(st, ast.Assign) and isinstance(st.targets[0], ast.Name) and
+                   any(isinstance(n, ast.Call) and unparse(n.func).endswith("arange") for n in ast.walk(st.value))), None)
+        if ar is None:
+            raise AnalysisError("build_radiuses_from_xyzr: the compartment centres (linspace / arange) vanished")
+        ev.PRIMS = dict(ev.PRIMS)
+
+        def _arange(self, a, k, n):
+            if len(a) == 1 and not k and rat_of(a[0]).eq(Rat.atom("n")):
+                return PW.of(Rat.atom("i"))
+            raise Und("arange with other arguments than the number of compartments")
+        ev.PRIMS["arange"] = _arange
+        try:
+            for st in fi.node.body:
+                if isinstance(st, ast.Assign) and st.lineno < ar.lineno and isinstance(st.targets[0], ast.Name):
+                    try:
+                        env[st.targets[0].id] = ev.ev(st.value, env, ctx)
+                    except Und:
+                        pass
+            val = rat_of(ev.ev(ar.value, env, ctx))
+            want = parse_ref(ev, "(i + 1/2)/n", {"i": PW.of(Rat.atom("i")), "n": kin.A("n")})
+            col.check(val.eq(want), R, fi, "compartment centres are (i + 1/2)/ncomp, i = 0..ncomp-1", "(arange(n) + 1/2)/n",
+                      f"centres are {val} for i = 0..n-1", node=ar)
+        except Und as e:
+            col.unk(R, fi, "compartment centres", str(e), node=ar)
+        centres_node = ar.value
+    else:
+      centres_node = ls
+      try:
+          for st in fi.node.body:
+              if isinstance(st, ast.Assign) and st.lineno < ls.lineno and isinstance(st.targets[0], ast.Name):
+                  try:
+                      env[st.targets[0].id] = ev.ev(st.value, env, ctx)
+                  except Und:
+                      pass
+          a, b, c = (rat_of(ev.ev(x, env, ctx)) for x in ls.args[:3])
+          ok = a.eq(parse_ref(ev, "1/(2*n)")) and b.eq(parse_ref(ev, "1 - 1/(2*n)")) and c.eq(Rat.atom("n"))
+          col.check(ok, R, fi, "compartment centres are (i + 1/2)/ncomp, i = 0..ncomp-1", "linspace(1/(2n), 1 - 1/(2n), n)",
+                    f"centres are linspace({a}, {b}, {c})", node=ls)
+      except Und as e:
+          col.unk(R, fi, "compartment centres", str(e), node=ls)
     ex = idx.expander(repo, fi)
     # clipping from below: x[x < min_radius] = min_radius, or maximum(x, min_radius) / clip(x, min_radius, None) in the returned value
     clipped, wrong, copied = False, None, None
@@ -330,7 +370,21 @@ def _forms(repo, col):
                 lo = x.kw.get("a_min") or x.kw.get("min") or (x.args[2] if (x.op == "mcall" and len(x.args) > 2) else None)
                 if lo is not None and lo.op == "param" and lo.name == "min_radius":
                     clipped = True
-    col.add(R, fi, "radii below min_radius are raised to min_radius", "DISCHARGED" if clipped else ("VIOLATED" if wrong is not None else "UNDECIDED"),
+    upper = None   # minimum(x, min_radius) / clip(x, max=min_radius): the bound is applied from ABOVE
+    for r_ in ex.returns:
+        for x in r_.walk():
+            if x.op in ("mcall", "call") and x.name == "minimum" and any(a_.op == "param" and a_.name == "min_radius" for a_ in x.args):
+                upper = x
+            if x.op in ("mcall", "call") and x.name == "clip":
+                hi = x.kw.get("a_max") or x.kw.get("max") or (x.args[3] if (x.op == "mcall" and len(x.args) > 3) else None)
+                if hi is not None and hi.op == "param" and hi.name == "min_radius":
+                    upper = x
+    if upper is not None:
+        col.bad(R, fi, "radii below min_radius are raised to min_radius",
+                f"`{upper.short(70)}` bounds the radii from ABOVE by min_radius: every radius larger than min_radius is cut down to it and "
+                f"the small ones stay as they are", node=upper.node or fi.node)
+    else:
+        col.add(R, fi, "radii below min_radius are raised to min_radius", "DISCHARGED" if clipped else ("VIOLATED" if wrong is not None else "UNDECIDED"),
             "x[x < min_radius] = min_radius" if clipped else
             (f"the clipping is `{unparse(wrong.node)[:70]}`: radii below min_radius must become min_radius and no other radius may change"
              + (" -- and in the array that is returned: this one is another array (the returned one was copied from it before the clip, "
@@ -341,17 +395,26 @@ def _forms(repo, col):
     from sa.terms import fuse_comprehensions as _fuse_c
     for t_ in list(ex.returns) + [s_.value for s_ in ex.stores if s_.value is not None]:
         calls_ += [x for x in _fuse_c(t_).walk() if x.op == "callv" and x.args and T.find(x.args[0], lambda y: y.op == "param" and y.name == "radius_fns") is not None]
-    ok = False
+    ok = maybe = False
     det = None
     for x in calls_:
         f_ = x.args[0]
         det = x.short(80)
         own = f_.op == "sub" and f_.args[0].op == "param" and f_.args[0].name == "radius_fns" and f_.args[1].op == "elem" and \
             f_.args[1].args[0].op == "param" and f_.args[1].args[0].name == "branch_indices"
-        at_centres = len(x.args) == 2 and T.find(x.args[1], lambda y: y.op == "mcall" and y.name == "linspace") is not None
+        ck_ = ex.term(centres_node).key()      # the array whose values the centre rule above has decided
+        arg_ = x.args[1] if len(x.args) == 2 else None
+        while arg_ is not None and arg_.op == "mcall" and arg_.name in ("asarray", "array", "copy") and len(arg_.args) == 2:
+            arg_ = arg_.args[1]
+        at_centres = arg_ is not None and arg_.key() == ck_
+        derived = arg_ is not None and not at_centres and T.find(arg_, lambda y: y.key() == ck_) is not None
         ok = ok or (own and at_centres)
-    col.add(R, fi, "branch b is evaluated with its own radius function at the centres", "DISCHARGED" if ok else ("VIOLATED" if calls_ else "UNDECIDED"),
-            "radius_fns[b](centres) for b in branch_indices" if ok else f"the radius functions are applied as {det}", node=fi.node)
+        maybe = maybe or (own and derived)
+    col.add(R, fi, "branch b is evaluated with its own radius function at the centres",
+            "DISCHARGED" if ok else ("UNDECIDED" if (maybe or not calls_) else "VIOLATED"),
+            "radius_fns[b](centres) for b in branch_indices" if ok else
+            (f"the radius functions are applied as {det}" + (": the argument is derived from the centres but is not the centres array itself" if maybe else "")),
+            node=fi.node)
     # ---- the dummy root of a multi-furcation at the first traced point: constant radius, whatever the locations
     pf = repo.func(CU, "_padded_radius")
     exp_ = idx.expander(repo, pf)
